@@ -14,8 +14,14 @@ WELL = 'com.ex.W'
 RULES = [
     {'type': 'signal', 'interface': 'a.b'},
     {'path_namespace': '/x'},
+    # rules that would match traffic meant for the bus itself, were it
+    # (wrongly) run through the rules
+    {},
+    {'type': 'method_call'},
+    {'destination': 'org.freedesktop.DBus'},
 ]
-RULE_TEXT = ["type='signal',interface='a.b'", "path_namespace='/x'"]
+RULE_TEXT = ["type='signal',interface='a.b'", "path_namespace='/x'", "",
+             "type='method_call'", "destination='org.freedesktop.DBus'"]
 
 # message templates: (type, destination kind, forged sender kind, flags,
 #                     extra fields)
@@ -40,6 +46,14 @@ TEMPLATES = [
                                   'interface': 'a.b'}),
     (1, 'peer1', 'own', 3, {'path': '/o', 'member': 'Call2',
                             'interface': 'a.c'}),
+    # addressed to the bus, of the other three types
+    (4, 'bus', 'absent', 0, {'path': '/x', 'member': 'M',
+                             'interface': 'a.b'}),
+    (2, 'bus', 'absent', 0, {'reply_serial': 80}),
+    (3, 'bus', 'own', 0, {'reply_serial': 81, 'error_name': 'a.b.Err'}),
+    (1, 'bus', 'absent', 0, {'path': '/org/freedesktop/DBus',
+                             'member': 'Hello',
+                             'interface': 'org.freedesktop.DBus'}),
 ]
 
 
@@ -98,7 +112,7 @@ class RouteScenario(explore.Scenario):
             if self.params.get('waiters') and (
                     w.owner == c or c in w.names.waiters[WELL]):
                 evs.append(('release', c))
-            for ri in range(len(RULES)):
+            for ri in self.params.get('rules', (0, 1)):
                 evs.append(('rmmatch', c, ri) if ri in w.rules[c]
                            else ('addmatch', c, ri))
         if w.alive[2]:
@@ -154,6 +168,19 @@ class RouteScenario(explore.Scenario):
             out[c] = msgs
         return out, bad
 
+    def _not_forwarded(self, got, c, member):
+        """a call a client makes to the bus shows up nowhere else"""
+        bad = []
+        for d, msgs in got.items():
+            for m in msgs:
+                if m['type'] == 1 and (d != c or
+                                       m['fields'].get('member') == member):
+                    bad.append(('%s/%s/forwarded' % (PROP, member),
+                                'the %s call client %d made to the bus was '
+                                'forwarded to client %d (%r)'
+                                % (member, c, d, m['fields'])))
+        return bad
+
     def advance(self, w, ev):
         self.apply(w, ev)
 
@@ -197,6 +224,7 @@ class RouteScenario(explore.Scenario):
                                 'RequestName(flags %d) answered %r, expected '
                                 '%d' % (flags, [(m['type'], m['body'])
                                                 for m in rep], want)))
+                bad += self._not_forwarded(got, c, 'RequestName')
                 if replaced is not None:
                     # whether a replaced owner waits is open: adopt it
                     s2 = w.peers[c].call_bus('ListQueuedOwners', 's', [WELL])
@@ -221,6 +249,7 @@ class RouteScenario(explore.Scenario):
                                 'ReleaseName answered %r, expected %d'
                                 % ([(m['type'], m['body']) for m in rep],
                                    want)))
+                bad += self._not_forwarded(got, c, 'ReleaseName')
                 return bad
             if kind in ('addmatch', 'rmmatch'):
                 c, ri = ev[1], ev[2]
@@ -238,11 +267,7 @@ class RouteScenario(explore.Scenario):
                     w.rules[c].add(ri)
                 else:
                     w.rules[c].discard(ri)
-                for d, msgs in got.items():
-                    if d != c and msgs:
-                        bad.append(('%s/%s/forwarded' % (PROP, member),
-                                    'a call to the bus was forwarded to '
-                                    'client %d' % d))
+                bad += self._not_forwarded(got, c, member)
                 return bad
             if kind == 'disc':
                 c = ev[1]
@@ -287,10 +312,12 @@ class RouteScenario(explore.Scenario):
             copies = [m for m in msgs if m['serial'] == meta['serial']
                       and m['type'] == meta['type']]
             others = [m for m in msgs if m not in copies]
-            if dk == 'bus' and d == c:
+            if dk == 'bus' and d == c and meta['type'] == 1:
                 rep = [m for m in others
                        if m['fields'].get('reply_serial') == meta['serial']]
-                if len(rep) != 1 or rep[0]['type'] != 2:
+                # (a second Hello is refused: an error is its answer)
+                if len(rep) != 1 or rep[0]['type'] != (
+                        2 if meta['fields']['member'] == 'GetId' else 3):
                     viol.append(('%s/bus-call/reply/%s' % (PROP, tag),
                                  'a call to the bus got %r'
                                  % [(m['type'], m['body']) for m in rep]))
@@ -494,6 +521,12 @@ def run(ctx):
                          'waiters': True},
                         max_depth=6, max_dev=0,
                         label='routing to a queued-for name, depth 6')
+        explore.explore(ctx, RouteScenario,
+                        {'templates': [7, 12, 13, 14, 15, 5], 'max_queue': 1,
+                         'senders': [0], 'rules': (2, 3, 4)},
+                        max_depth=4, max_dev=0,
+                        label='bus-addressed traffic under catch-all rules, '
+                              'depth 4')
         explore.explore(ctx, NameScenario, {}, max_depth=5,
                         label='unique names, depth 5')
     else:
@@ -514,6 +547,13 @@ def run(ctx):
                         max_depth=7, max_dev=1,
                         label='routing to a queued-for name, depth 7',
                         max_states=200000)
+        explore.explore(ctx, RouteScenario,
+                        {'templates': [7, 12, 13, 14, 15, 5, 0],
+                         'max_queue': 1, 'senders': [0, 1],
+                         'rules': (2, 3, 4), 'waiters': True},
+                        max_depth=6, max_dev=1,
+                        label='bus-addressed traffic under catch-all rules, '
+                              'depth 6', max_states=200000)
         explore.explore(ctx, NameScenario, {}, max_depth=7,
                         label='unique names, depth 7')
     ctx.bounds = {'clients': 3}
